@@ -482,56 +482,79 @@ Proof.
   - apply IH; auto. intros y Hy. apply D. now right.
 Qed.
 
+Lemma map_snd_combine_seq : forall X (U : list X) s, map snd (combine (seq s (length U)) U) = U.
+Proof. induction U as [|u r IH]; intros s; simpl; [reflexivity | now rewrite IH]. Qed.
+
+(* old_match = {f: i for i, f in enumerate(uniq_fun)} *)
+Lemma old_match_get : forall (U : list N) k j, dget N.eqb k (old_match_of U) = Some j -> nth_error U j = Some k.
+Proof.
+  intros U k j H. unfold old_match_of, enumerate in H.
+  destruct (enum_fold_get N N.eqb Neqb_spec (combine (seq 0 (length U)) U) [] k) as [G _].
+  destruct (G j H) as [G1|G1]; [discriminate|].
+  apply in_combine_nth in G1. destruct G1 as [m [M1 M2]].
+  assert (m < length U) by (apply nth_error_Some; congruence).
+  rewrite nth_error_seq in M1 by assumption. inversion M1; subst. exact M2.
+Qed.
+
+Lemma old_match_mem : forall (U : list N) k, dmem N.eqb k (old_match_of U) = true <-> In k U.
+Proof.
+  intros U k. unfold dmem, old_match_of, enumerate.
+  destruct (enum_fold_get N N.eqb Neqb_spec (combine (seq 0 (length U)) U) [] k) as [_ G].
+  rewrite map_snd_combine_seq in G.
+  destruct (dget N.eqb k (fold_left (fun d iv => dset N.eqb (snd iv) (fst iv) d) (combine (seq 0 (length U)) U) [])) eqn:D.
+  - split; [|reflexivity]. intros _. destruct (in_dec N.eq_dec k U) as [I|I]; [assumption|].
+    assert (@None nat = None /\ ~ In k U) as X by auto. apply G in X. discriminate.
+  - split; [discriminate|]. intros I. destruct G as [G _]. destruct (G eq_refl) as [_ G2]. contradiction.
+Qed.
+
 Theorem unmerge_sound : forall (E : list N) (lib : library) (T : list nat),
   length (l_match lib) = length E -> length (l_subs lib) = length E ->
   (forall r, In r T -> r < length E) ->
   let lib' := unmerge E lib T in
   length (l_match lib') = length E /\ length (l_subs lib') = length E /\
-  (* every function in to_change is its own unique, appended after the old ones, with an empty row *)
-  (forall r, In r T -> exists q, nth_error (l_match lib') r = Some q /\ length (l_uniq lib) <= q /\
+  (* every function in to_change is matched to a unique entry that IS its own string, with an empty row *)
+  (forall r, In r T -> exists q, nth_error (l_match lib') r = Some q /\
                                  nth_error (l_uniq lib') q = Some (nth r E 0%N) /\ nth_error (l_subs lib') r = Some []) /\
   (* every other function keeps its match and its row, and the old uniques keep their positions *)
   (forall i, ~ In i T -> nth_error (l_match lib') i = nth_error (l_match lib) i /\
                          nth_error (l_subs lib') i = nth_error (l_subs lib) i) /\
   (forall q, q < length (l_uniq lib) -> nth_error (l_uniq lib') q = nth_error (l_uniq lib) q) /\
-  (* the new unique list stays duplicate-free PROVIDED no un-merged string is already a unique *)
-  (NoDup (l_uniq lib) -> (forall r, In r T -> ~ In (nth r E 0%N) (l_uniq lib)) -> NoDup (l_uniq lib')).
+  (* the unique list stays duplicate-free *)
+  (NoDup (l_uniq lib) -> NoDup (l_uniq lib')).
 Proof.
   intros E lib T HM HS HT lib'. unfold lib', unmerge. simpl.
-  set (new_fun := map (fun r => nth r E 0%N) T).
+  set (om := old_match_of (l_uniq lib)).
+  set (new_fun := map (fun r => nth r E 0%N) (filter (fun r => negb (dmem N.eqb (nth r E 0%N) om)) T)).
   split; [now rewrite scatter_length|]. split; [now rewrite scatter_length|]. split; [|split; [|split]].
   - intros r Hr.
-    assert (Hin : In (nth r E 0%N) new_fun) by (unfold new_fun; apply in_map_iff; eauto).
-    destruct (uniq_spec N N.eqb Neqb_spec new_fun _ Hin) as [m [Hm1 [Hm2 Hm3]]].
-    exists (length (l_uniq lib) + m). split; [|split; [lia|split]].
-    + apply scatter_functional.
-      * intros y' Hy. apply in_map_iff in Hy. destruct Hy as [r' [Hy1 Hy2]]. inversion Hy1; subst. now rewrite Hm1.
-      * apply in_map_iff. exists r. split; [now rewrite Hm1 | assumption].
-      * rewrite HM. now apply HT.
-    + rewrite nth_error_app2 by lia. replace (length (l_uniq lib) + m - length (l_uniq lib)) with m by lia. exact Hm2.
-    + apply scatter_functional.
-      * intros y' Hy. apply in_map_iff in Hy. destruct Hy as [r' [Hy1 Hy2]]. now inversion Hy1.
-      * apply in_map_iff. eauto.
-      * rewrite HS. now apply HT.
+    assert (Hsub : nth_error (scatter (map (fun r0 : nat => (r0, @nil N)) T) (l_subs lib)) r = Some []).
+    { apply scatter_functional.
+      - intros y' Hy. apply in_map_iff in Hy. destruct Hy as [r' [Hy1 Hy2]]. now inversion Hy1.
+      - apply in_map_iff. eauto.
+      - rewrite HS. now apply HT. }
+    destruct (dget N.eqb (nth r E 0%N) om) as [j|] eqn:Eo.
+    + exists j. split; [|split; [|exact Hsub]].
+      * apply scatter_functional.
+        -- intros y' Hy. apply in_map_iff in Hy. destruct Hy as [r' [Hy1 Hy2]]. inversion Hy1; subst. now rewrite Eo.
+        -- apply in_map_iff. exists r. split; [now rewrite Eo | assumption].
+        -- rewrite HM. now apply HT.
+      * apply old_match_get in Eo. rewrite nth_error_app1; [assumption|]. apply nth_error_Some. congruence.
+    + assert (Hin : In (nth r E 0%N) new_fun).
+      { unfold new_fun. apply in_map_iff. exists r. split; [reflexivity|]. apply filter_In. split; [assumption|].
+        unfold dmem. now rewrite Eo. }
+      destruct (uniq_spec N N.eqb Neqb_spec new_fun _ Hin) as [m [Hm1 [Hm2 Hm3]]].
+      exists (length (l_uniq lib) + m). split; [|split; [|exact Hsub]].
+      * apply scatter_functional.
+        -- intros y' Hy. apply in_map_iff in Hy. destruct Hy as [r' [Hy1 Hy2]]. inversion Hy1; subst. now rewrite Eo, Hm1.
+        -- apply in_map_iff. exists r. split; [now rewrite Eo, Hm1 | assumption].
+        -- rewrite HM. now apply HT.
+      * rewrite nth_error_app2 by lia. replace (length (l_uniq lib) + m - length (l_uniq lib)) with m by lia. exact Hm2.
   - intros i Hi. split; apply scatter_notin; rewrite map_map; simpl; now rewrite map_id.
   - intros q Hq. now apply nth_error_app1.
-  - intros ND HD. apply NoDup_app_disj; [assumption | apply (uniq_keys_nodup N N.eqb Neqb_spec)|].
+  - intros ND. apply NoDup_app_disj; [assumption | apply (uniq_keys_nodup N N.eqb Neqb_spec)|].
     intros x Hx Hx'. rewrite (uniq_keys_in N N.eqb Neqb_spec) in Hx'. unfold new_fun in Hx'. apply in_map_iff in Hx'.
-    destruct Hx' as [r [Hr1 Hr2]]. subst x. exact (HD r Hr2 Hx).
-Qed.
-
-(* check_results appends without looking at the existing unique list: a state in which the un-merged
-   function's own string is already a unique yields a duplicated unique entry *)
-Theorem unmerge_can_duplicate : exists (E : list N) (lib : library) (T : list nat),
-  NoDup (l_uniq lib) /\ length (l_match lib) = length E /\ length (l_subs lib) = length E /\
-  (forall r, In r T -> r < length E) /\ ~ NoDup (l_uniq (unmerge E lib T)).
-Proof.
-  exists [1%N; 2%N], (mk_lib [1%N; 5%N] [1; 0] [[7%N]; []]), [0].
-  split.
-  { constructor; [simpl; intros [H|[]]; discriminate|]. constructor; [simpl; tauto | constructor]. }
-  split; [reflexivity|]. split; [reflexivity|].
-  split; [intros r [Hr|[]]; subst; simpl; lia|].
-  vm_compute. intros H. inversion H as [|? ? Hn _]; subst. apply Hn. right. now left.
+    destruct Hx' as [r [Hr1 Hr2]]. subst x. apply filter_In in Hr2. destruct Hr2 as [_ Hr2].
+    apply negb_true_iff in Hr2. apply (old_match_mem (l_uniq lib)) in Hx. unfold om in Hr2. congruence.
 Qed.
 
 (* ------------------------------------------------------------------ the whole of main *)
@@ -718,7 +741,7 @@ Section MainP.
       - assert (Hf : o_final o = unmerge E (o_lib o) T) by (subst o; reflexivity).
         rewrite Hf. destruct (unmerge_sound E (o_lib o) T LM LS HT) as [_ [_ [U3 [U4 [U5 _]]]]].
         destruct (in_dec Nat.eq_dec i T) as [HiT|HiT].
-        + destruct (U3 i HiT) as [q' [W1 [W2 [W3 W4]]]]. exists q', (nth i E 0%N), []. split; [exact W1|]. split; [exact W3|]. split; [exact W4|]. apply step_refl.
+        + destruct (U3 i HiT) as [q' [W1 [W3 W4]]]. exists q', (nth i E 0%N), []. split; [exact W1|]. split; [exact W3|]. split; [exact W4|]. apply step_refl.
         + destruct (U4 i HiT) as [W1 W2]. exists q, u, c. rewrite W1, W2.
           split; [assumption|]. split; [|split; assumption].
           rewrite U5; [assumption|]. apply nth_error_Some. congruence.
@@ -853,4 +876,21 @@ Proof.
               ltac:(intros k f H; destruct k; discriminate) i Hi)
     as [q [u [c [H1 [H2 [H3 [_ [H5 H6]]]]]]]].
   exists q, u, c. simpl. rewrite H1, H2, H3. auto.
+Qed.
+
+(* uniques_distinct, final: the unique list written at the very end (after check_results) is duplicate-free *)
+Theorem final_uniques_distinct : forall cp mp E xo os perm cancel check T o,
+  main cp mp E xo os perm cancel check T = Some o ->
+  length xo <= length E -> (forall r, In r T -> r < length E) ->
+  Permutation perm (seq 0 (length (uniq_keys N.eqb (o_fun o)))) ->
+  NoDup (l_uniq (o_final o)).
+Proof.
+  intros cp mp E xo os perm cancel check T o H Hxo HT HP.
+  destruct (uniques_distinct _ _ _ _ _ _ _ _ _ _ H HP) as [ND _].
+  destruct (rows_aligned _ _ _ _ _ _ _ _ _ _ H Hxo HT) as [_ [_ [_ [_ [LM [LS _]]]]]].
+  destruct (main_inv _ _ _ _ _ _ _ _ _ _ H) as [af [rounds [r1 [rest [uniq' [midx [_ [_ [_ Ho]]]]]]]]].
+  destruct check.
+  - assert (Hf : o_final o = unmerge E (o_lib o) T) by (subst o; reflexivity). rewrite Hf.
+    destruct (unmerge_sound E (o_lib o) T LM LS HT) as [_ [_ [_ [_ [_ U6]]]]]. now apply U6.
+  - assert (Hf : o_final o = o_lib o) by (subst o; reflexivity). now rewrite Hf.
 Qed.
